@@ -725,6 +725,46 @@ func c04Dispatch(c *Ctx, dec *ssa.Function) {
 				c.check(false, "C04.dispatch", dec, what, ci, sprintf("the tested suffix is %q but the encoder appends %q: a name whose last label merely ends in the suffix text is decoded", t, sp.suffix))
 				continue
 			}
+			// every length test on the way to the decoder must let all canonical
+			// names through: 7..15 bytes of dotted quad plus the suffix for IPv4
+			// (the IPv6 name has one fixed length, checked by C04.v6.*)
+			if sp.callee == "ipv4FromReversed" {
+				for _, g := range core.Facts(dec).At(ci.Block()) {
+					cond, truth := core.StripNot(g.Cond, g.Truth)
+					bo, isB := cond.(*ssa.BinOp)
+					if !isB {
+						continue
+					}
+					lc, isL := bo.X.(*ssa.Call)
+					k, isK := core.ConstInt(bo.Y)
+					if !isL || !isK || core.CalleeName(&lc.Call) != "builtin.len" {
+						continue
+					}
+					lo, hi := int64(-1), int64(-1)
+					switch a := lc.Call.Args[0].(type) {
+					case *ssa.Slice:
+						if a.X == x && a.Low == nil {
+							lo, hi = 7, 15
+						}
+					default:
+						if lc.Call.Args[0] == x {
+							lo, hi = 7+int64(len(t)), 15+int64(len(t))
+						}
+					}
+					if lo < 0 {
+						continue
+					}
+					bad := int64(-1)
+					for l := lo; l <= hi; l++ {
+						if cmpInt(bo.Op, l, k) != truth {
+							bad = l
+							break
+						}
+					}
+					c.check(bad < 0, "C04.dispatch", dec, "length test on the way to ipv4FromReversed: "+core.Describe(cond), g.Cond.(ssa.Instruction),
+						sprintf("must hold for every canonical name length %d..%d; fails for %d, so an IPToReversedAddr output is refused", lo, hi, bad))
+				}
+			}
 			arg := ci.Common().Args[0]
 			if sp.callee == "ipv6FromReversed" {
 				c.check(arg == x, "C04.dispatch", dec, what, ci, "the whole tested name is handed to the fixed-position scanner")
@@ -938,9 +978,26 @@ func runC05(c *Ctx) {
 				}
 			})
 		}
+		c.L.Floor("C05.prefix-aligned", 1)
 		a.Hook = func(h *lincon.Handle) {
 			switch in := h.Instr.(type) {
 			case *ssa.Call:
+				// the octet labels handed to the IPv4 decoders end where the
+				// ".in-addr.arpa" suffix begins: the byte after them is the dot
+				// (or there are no labels at all: the bare root)
+				if g := in.Call.StaticCallee(); g != nil && (g.Name() == "ipv4NetFromReversed" || g.Name() == "ipv4FromReversed") &&
+					in.Parent().Name() == "subnetFromReversedV4" && len(in.Call.Args) == 1 {
+					n, ok := h.Len(in.Call.Args[0])
+					good := false
+					if ok {
+						if h.ProvesEQ(n) {
+							good = true
+						} else if b, ok := h.ByteAt(in.Call.Args[0], n); ok && b == '.' {
+							good = true
+						}
+					}
+					h.Assert("prefix-aligned", "the text given to the IPv4 decoder is followed by the '.' of \".in-addr.arpa\" (or is empty: the bare root)", good)
+				}
 				for _, cs := range cutCalls {
 					if in != cs || sufLen == nil {
 						continue
